@@ -1,5 +1,6 @@
 import PsModel.Util.Sexp
 import PsModel.Model.C01Rec
+import PsModel.Model.C01Comp
 /-! line-protocol front end of the C01 model: `C01 (run (tape …) (stmts …))` → `model=<log>|<res> spec=<log>|<res>` -/
 namespace PsModel.C01
 open PsModel
@@ -84,8 +85,30 @@ def showRun (r : R RW Store) : String :=
     | .error e => showExc e
   ";".intercalate r.2.log ++ "|" ++ res
 
+def slot? : Sexp → Option (String × C01Comp.Slot)
+  | .list [.atom x, .atom "plain", v] => v.nat?.map fun n => (x, .plain n)
+  | .list [.atom x, .atom "cell", i] => i.nat?.map fun n => (x, .cell n)
+  | _ => none
+
+def cellv? : Sexp → Option (Option Nat)
+  | .atom "none" => some none
+  | x => x.nat?.map some
+
+def showFrame (f : C01Comp.Frame) : String :=
+  let ents := f.tbl.map fun (p : String × C01Comp.Slot) =>
+    match p.2 with | .plain v => s!"{p.1}=p{v}" | .cell i => s!"{p.1}=c{i}"
+  let cs := f.cells.map fun c => match c with | some v => toString v | none => "none"
+  ",".intercalate (ents.toArray.qsort (· < ·)).toList ++ ";" ++ ",".intercalate cs
+
 def handle (x : Sexp) : String :=
   match x with
+  | .list [.atom "compscope", tbl, cells, lv, iters] =>
+    match Sexp.listOf? slot? tbl, Sexp.listOf? cellv? cells, Sexp.listOf? Sexp.str? lv,
+          Sexp.listOf? (Sexp.listOf? Sexp.nat?) iters with
+    | some t, some c, some l, some it =>
+      -- the reference: the enclosing table and the cells are untouched (the loop variables live in their own scope)
+      "model=" ++ showFrame (C01Comp.comp true ⟨t, c⟩ l it) ++ " spec=" ++ showFrame ⟨t, c⟩
+    | _, _, _, _ => "err parse"
   | .list [.atom "run", .list (.atom "tape" :: tape), .list stmts] =>
     match tape.mapM Sexp.nat?, stmts.mapM stmt? with
     | some t, some p =>
